@@ -257,7 +257,7 @@ def c16(cx):
         pgserver_inductive(cx)
     # schedules: every interleaving of the permissive (lock-free) scheduler model, replayed on real goroutines
     b = model_check(cx, "MC_C16", cfg="MC_C16_sched.cfg", consts=big)
-    subsample(cx, b, 30000 if thorough else 3000)
+    subsample(cx, b, 20000 if thorough else 3000)
     sample_behaviours(cx, b)
     trace, crash = play(cx, b, "sched", cmd="sched")
     rejected = [] if crash else validate(cx, trace, "Trace_PgServer")
